@@ -154,7 +154,9 @@ theorem Inv.ingest {s : State} (h : Inv s) (md : List (Cid × Action)) (blocks :
 theorem Inv.setOnline {s : State} (h : Inv s) (b : Bool) : Inv (setOnline s b) := by
   unfold Loader.setOnline
   dsimp only
-  split <;> exact ⟨h.items, h.last, h.store⟩
+  split
+  · exact ⟨by simp [RQ.clear], by simp [RQ.clear], h.store⟩
+  · exact ⟨h.items, h.last, h.store⟩
 
 theorem Inv.cleanup {s : State} (h : Inv s) : Inv (cleanup s) := by
   unfold Loader.cleanup RQ.clear
